@@ -949,7 +949,49 @@ def blocking_two_threads(n_later=1):
     return None
 
 
+def closed_handler_case(kind):
+    """actions handed over AFTER close(): each hand-over either raises (a closed pool refuses loudly) or yields exactly
+    one response - never silently nothing.  -> failure text | None"""
+    h = make_handler(kind, 2, 0)
+    accepted, refused = [], 0
+    try:
+        def hand(eid):
+            nonlocal refused
+            ev = mk_event(eid, 7, 17)
+            act = TabAction("a%d" % eid, {ev.event_id: (eid % 2 == 0, 100 + eid, 0)})
+            try:
+                h.handle(act, ev)
+                accepted.append(eid)
+            except Exception:        # noqa
+                refused += 1
+        for eid in (1, 2):
+            hand(eid)
+        wait_until(lambda: h.size() >= len(accepted), 10.0)
+        h.close()
+        for eid in (3, 4, 5):
+            hand(eid)
+        if kind != "blocking" and len(accepted) > 2:
+            wait_until(lambda: h.size() >= len(accepted), 3.0)
+        got = []
+        while h.size() > 0:
+            r = h.get_handler_response()
+            got.append(int(r.complex_event.event_id[1:]))
+    finally:
+        close_handler(h)
+    if sorted(got) != sorted(accepted):
+        return ("handed over %s (accepted without an error: %s, refused with an error: %d), responses for %s"
+                % ([1, 2, 3, 4, 5], accepted, refused, sorted(got)))
+    return None
+
+
 def run(ctx, res):
+    for kind in ("blocking", "thread", "process"):
+        bad = closed_handler_case(kind)
+        res.note_case(("closed-handler", kind), True)
+        if bad:
+            res.failures.append(dict(signature="action-handed-over-after-close-vanishes", detail=None,
+                                     what="%s handler, close() after two actions, three more handed over: %s" % (kind, bad),
+                                     case=dict(kind="closed-handler", handler=kind)))
     shared_multi(ctx, res)
     for n_later in (1, 2, 3):
         bad = blocking_two_threads(n_later)
@@ -1199,6 +1241,10 @@ def replay_shared(case):
 def replay(obj):
     if (obj.get("case") or {}).get("kind") == "shared-multi":
         return replay_shared(obj["case"])
+    if (obj.get("case") or {}).get("kind") == "closed-handler":
+        bad = closed_handler_case(obj["case"]["handler"])
+        print("oracle:", bad or "every hand-over after close() either raised or was answered once")
+        return 1 if bad else 0
     if (obj.get("case") or {}).get("kind") == "blocking-two-threads":
         bad = blocking_two_threads(obj["case"]["n_later"])
         print("oracle:", bad or "later submissions waited for the first; responses in submission order, own outcomes")
